@@ -77,6 +77,21 @@ def attach(rng, k):
     return hvsrpy.HvsrAzimuthal([trad() for _ in range(naz)], list(np.linspace(0, 150, naz))), kind
 
 
+def pre_reject(rng, hv):
+    """Half of the attached objects already carry rejected windows (manual rejection / an earlier rejection pass) when
+    they are handed to the time-domain rejection: the masks afterwards must be the NEW selection, nothing else."""
+    import hvsrpy
+    if hv is None or rng.random() < 0.5:
+        return False
+    hs = hv.hvsrs if isinstance(hv, hvsrpy.HvsrAzimuthal) else [hv]
+    for h in hs:
+        for i in range(h.n_curves):
+            if rng.random() < 0.3:
+                h.valid_window_boolean_mask[i] = False
+                h.valid_peak_boolean_mask[i] = False
+    return True
+
+
 def check_masks(ctx, hv, keep, info):
     import hvsrpy
     if hv is None:
@@ -103,6 +118,8 @@ def fam_stalta(ctx, rng):
     comps = COMPS[int(rng.integers(0, 7))]
     items = gen_windows(rng, k, n, dt)
     hv, akind = attach(rng, k)
+    if pre_reject(rng, hv):
+        akind += "+earlier-rejections"
     info = dict(k=k, dt=dt, n=n, sta=sta, lta=lta, lo=lo, hi=hi, components=list(comps), attached=akind)
     ctx.describe(**info)
     recs = build(items, dt)
@@ -180,6 +197,8 @@ def fam_maxvalue(ctx, rng):
     else:
         thr = float(np.quantile(vals, rng.uniform(0.1, 0.9)))
     hv, akind = attach(rng, k)
+    if pre_reject(rng, hv):
+        akind += "+earlier-rejections"
     info = dict(k=k, n=n, components=list(comps), normalized=normalized, threshold=thr, mode=mode, attached=akind)
     ctx.describe(**info)
     recs = build(items, dt)
